@@ -17,6 +17,9 @@ EXPLANATION = (
 EXPLANATION += (  # round-3 supplement
     ' X2 finds the failure counter (or the folded result) by data flow. X4 every CLI sub-command loads its input with FileTree::read.'
 )
+EXPLANATION += (
+    ' X5 Module::get_function looks every name up under the package prefix (the one test discovery strips) on every path, so the mapping from the name a test case is built from to the exported symbol is injective.'
+)
 ASSUMPTIONS = [
     "process exit codes are produced only by roto::cli (main.rs returns its ExitCode)",
 ]
@@ -331,6 +334,90 @@ def rule_x4(F):
     return r
 
 
+def rule_x5(F):
+    """Which function a test case (or `roto run`) calls: the exported symbols are keyed by their full path `pkg.<path>`, test
+    discovery strips that one prefix and hands the rest to Module::get_function, which must put exactly that prefix back - on every
+    path.  (If a name that already starts with `pkg.` is looked up as it is, the tests of a sub-module named `pkg` resolve to the
+    root module's tests of the same name: they are reported under the sub-module's name without ever running.)"""
+    r = RuleResult("C19.X5", "get_function looks every name up under the package prefix that test discovery stripped (the name -> symbol mapping is injective)", floor=1)
+    ps = [p for p in F.paths() if p.endswith("::get_function") and p.startswith("codegen::Module")]
+    if not ps:
+        r.missing("codegen::Module::get_function")
+        return r
+    b = F.body(ps[0])
+    defs = mir.Defs(b)
+    gets = [(bi, t) for bi, t in mir.calls(b) if (mir.callee_def(t) or "").endswith("HashMap::<K, V, S, A>::get") and t["args"] and mir.is_place_op(t["args"][0])
+            and "functions" in mir.origin_key(b, defs, t["args"][0][1])]
+    if not gets:
+        r.missing("the lookup in `functions` in Module::get_function")
+        return r
+    fmts = {}
+    for bi, t in mir.calls(b):
+        if hir.last(mir.callee(t) or "") == "format" and "fmt" in (mir.callee(t) or ""):
+            # the literal pieces of the Arguments it formats
+            pre = None
+            for cb in mir.back_calls(b, defs, t["args"][0][1][0]) if t["args"] and mir.is_place_op(t["args"][0]) else []:
+                ct = b.blocks[cb]["term"]
+                for a in ct["args"]:
+                    c = mir.op_const(a)
+                    text = str(c.get("text", "")) if c is not None else ""
+                    if not text and mir.is_place_op(a):
+                        root, _p = mir.origin(b, defs, a[1])
+                        text = root[6:] if root.startswith("const:") else ""
+                    if text.startswith("b\""):
+                        raw = text[2:-1].encode().decode("unicode_escape")
+                        pre = fmt_prefix(raw) or pre
+            fmts[bi] = pre
+    stripped = set()
+    for p in F.paths():
+        if p.startswith("codegen::testing::get_tests"):
+            tb = F.body(p)
+            if tb is not None and tb.hir:
+                for c in hir.nodes(tb.hir.get("value") or {}, "mcall"):
+                    if c["m"] in ("strip_prefix", "trim_start_matches") and c["args"]:
+                        a0 = hir.peel_refs(c["args"][0])
+                        if a0.get("k") == "lit" and a0.get("lk") == "str":
+                            stripped.add(a0["v"])
+    for gbi, gt in gets:
+        key = gt["args"][1] if len(gt["args"]) > 1 else None
+        if not mir.is_place_op(key):
+            r.missing("the key of the lookup")
+            continue
+        # the variable behind the key and all of its definitions
+        l = key[1][0]
+        for _ in range(8):
+            ds = defs.whole_defs(l)
+            if len(ds) == 1 and ds[0][2] == "assign" and ds[0][3]["rv"]["k"] in ("ref", "use", "cast"):
+                rv = ds[0][3]["rv"]
+                src = rv.get("p") or (rv["o"][1] if mir.is_place_op(rv.get("o")) else None)
+                if not src:
+                    break
+                l = src[0]
+            elif len(ds) == 1 and ds[0][2] == "call" and hir.last(mir.callee_def(ds[0][3]) or "") in ("deref", "as_str", "as_ref", "borrow", "must_use") and ds[0][3]["args"] and mir.is_place_op(ds[0][3]["args"][0]):
+                l = ds[0][3]["args"][0][1][0]
+            else:
+                break
+        sources = []
+        for d in defs.whole_defs(l):
+            if d[2] == "call":
+                calls_ = {d[0]} | (set().union(*[mir.back_calls(b, defs, a[1][0]) for a in d[3]["args"] if mir.is_place_op(a)]) if d[3]["args"] else set())
+            else:
+                calls_ = set().union(*[mir.back_calls(b, defs, x) for x in mir.rv_locals(d[3]["rv"])]) if mir.rv_locals(d[3]["rv"]) else set()
+            pres = [fmts[c] for c in calls_ if c in fmts]
+            sources.append(pres[0] if pres else None)
+        r.inst("lookup key in get_function", {"definitions_of_the_key": len(sources), "prefixes": sources, "stripped_by_get_tests": sorted(stripped)})
+        if not sources or any(x is None for x in sources):
+            r.bad(b.path, "name looked up without the package prefix on some path", relfile(b.file), gt.get("line", b.line),
+                  "on some path the name is looked up in the symbol table as it was given, without the package prefix being prepended: two different names then reach the same symbol "
+                  "(`pkg.f` and `f`), and a test of a sub-module called `pkg` resolves to the root module's test of the same name - it is reported as run without running")
+        elif stripped and any(x not in stripped for x in sources):
+            r.bad(b.path, "prefix differs from the one test discovery strips", relfile(b.file), gt.get("line", b.line),
+                  "get_function prepends %s but test discovery strips %s" % (sorted(set(sources)), sorted(stripped)))
+    if not stripped:
+        r.missing("the prefix stripped by codegen::testing::get_tests")
+    return r
+
+
 def rules(ctx):
     F = ctx["F"]
-    return [rule_x1(F), rule_x2(F), rule_x3(F), rule_x4(F)]
+    return [rule_x1(F), rule_x2(F), rule_x3(F), rule_x4(F), rule_x5(F)]
